@@ -8,6 +8,7 @@ import (
 	"io"
 	"math/rand"
 	"os"
+	"reflect"
 
 	"github.com/bluenviron/gomavlib/v3/pkg/dialect"
 	"github.com/bluenviron/gomavlib/v3/pkg/frame"
@@ -284,6 +285,55 @@ func cmdC01(o opts) {
 			n = r.Intn(8)
 		}
 		emit(mkFrame(r, v, s, n), dl)
+	}
+
+	// with a dialect that has the message: the frame carries a decoded message, the writer encodes it
+	{
+		protos := allProtos()
+		ix := defIndex(protos)
+		allD := findDialect("all")
+		drw := mustRW(allD)
+		nm := 40
+		if thorough {
+			nm = len(allD.Messages)
+		}
+		for i := 0; i < nm; i++ {
+			m := allD.Messages[(i*7+int(o.seed))%len(allD.Messages)]
+			sh := shapes(defOf(m))
+			vals := randVals(r, sh, i%2 == 0)
+			for _, vv := range variants {
+				if vv.v == 1 && m.GetID() > 255 {
+					continue
+				}
+				j := mkFrame(r, vv.v, vv.signed, 0)
+				j.ID = int(m.GetID())
+				j.Payload = B{}
+				fr := j.toGo()
+				msg := newMsg(m, vals)
+				switch f := fr.(type) {
+				case *frame.V1Frame:
+					f.Message = msg
+				case *frame.V2Frame:
+					f.Message = msg
+				}
+				sink := &recWriter{}
+				w := &frame.Writer{ByteWriter: sink, DialectRW: drw}
+				w.Initialize() //nolint:errcheck
+				errS, pan := "", false
+				func() {
+					defer func() {
+						if rr := recover(); rr != nil {
+							pan = true
+						}
+					}()
+					if err := w.Write(fr); err != nil {
+						errS = err.Error()
+					}
+				}()
+				rec.Put(M{"e": "FWM", "f": j, "d": ix[reflect.TypeOf(m)], "vals": vals, "err": errS != "", "panic": pan,
+					"out": B(append([]byte{}, sink.buf.Bytes()...)), "nw": sink.calls})
+			}
+		}
 	}
 
 	// spec -> code vectors: bytes computed by TLC from MavFrame!Marshal
